@@ -57,6 +57,53 @@ def run():
             ck.reject("C07:param-expression", f"{rq['src']!r}: {o['events']} {o['end']}; the raise in the parameter expression must end the statement with {want}",
                       {"src": rq["src"], "observed": [o["events"], o["end"]], "expected": [["out:70"], want]})
     ck.cov["parameter_expression_programs"] = len(preqs)
+    # a raise while a LAZY source computes an element, consumed through every library method written over iterators (chain, zip, withI, ...):
+    # run the consumer with a quiet source first; if that run asks the source for the element in question, the run with the raising source
+    # must be the same up to that point and then end with exactly that error (under try: the handler holds it)
+    sources = [("lazymap", "[1, 2, 3].lazyMap {{|x| say(x); {r}x}}"), ("iterlit", "<{{|x| say(x); {r}yield x if x < 4; recur(x + 1)}}>.new(1)"),
+               ("while", "(1:9).while {{|x| say(x); {r}x < 4}}")]
+    consumers = [".A", ".chain([10, 20]).A", ".append(9).A", ".prepend(0).A", "@{|e| e}", "$(0)+", ".sum", ".withI.A", ".zip([7, 8, 9]).A", ".acc {|a, e| e}.A", ".until {|e| e > 5}.A",
+                 ".while {|e| e < 5}.A", ".doUntil {|e| e > 5}.A", ".doWhile {|e| e < 5}.A", ".select {|e| true}", ".exclude {|e| false}", ".map {|e| e}", ".reduce({|a, e| e})", ".last",
+                 ".max", ".min", ".tally", ".keyBy {|e| e}", ".chunk(2).A", ".all? {|e| true}", ".any? {|e| false}", ".find {|e| e == 3}", ".index(3)", ".indices(3)", ".rindex(3)", ".avg",
+                 ".flipflop(1, 3)", ".empty?", ".lazyMap {|e| e}.A", ".chain([10]).chain([20]).A", ".{|it| [0].chain(it, [5]).A}", ".{|it| [0].zip(it).A}", ".A.len", "=@{|e| e}", "~@{|e| e}.len",
+                 "&@{|e| e}", ".withI.lazyMap {|p| p}.A", ".{|it| [it.next, it.next, it.next]}", ".append(9).withI.A", ".prepend(0).chain([5]).sum"]
+    kinds = [("Err", "raise Err.new(\"boom\") if x == 2; ", "err:Err:boom"), ("div0", "1 / 0 if x == 2; ", "err:ZeroDivisionErr:cannot be divided by 0"),
+             ("name", "undefinedname if x == 2; ", "err:NameErr:name `undefinedname` is not defined")]
+    lreqs, lmeta = [], []
+    for sname, stext in sources:
+        for cons in consumers:
+            for handler in ("none", "try"):
+                for kname, ktext, kend in [("quiet", "", "")] + kinds:
+                    body = f"it := {stext.format(r=ktext)}\nsay(70)\nres := it{cons}\nsay(71)\nres"
+                    if handler == "try":
+                        body = f"w := {{|| it := {stext.format(r=ktext)}; say(70); res := it{cons}; say(71); res}}\nsay(nil.try.{{|u| w()}}.A)\nsay(72)"
+                    lreqs.append({"id": f"L{len(lreqs)}", "src": body, "fuel": 60000, "deadline_ms": 4000})
+                    lmeta.append((sname, cons, handler, kname, kend))
+    lout = run_cases(lreqs, label="C07 lazy sources")
+    quiet = {}
+    lazy_judged = 0
+    for rq, (sname, cons, handler, kname, kend) in zip(lreqs, lmeta):
+        o = lout[rq["id"]]
+        if kname == "quiet":
+            quiet[(sname, cons, handler)] = o
+            continue
+        qo = quiet[(sname, cons, handler)]
+        if qo["end"].startswith(("discarded:", "fuel:")) or o["end"].startswith(("discarded:", "fuel:")) or "out:2" not in qo["events"]:
+            continue          # the consumer never asks for that element: nothing to say
+        lazy_judged += 1
+        prefix = qo["events"][:qo["events"].index("out:2") + 1]
+        if handler == "none":
+            ok = o["events"] == prefix and o["end"] == kend
+            want = [prefix, kend]
+        else:
+            kind, msg = kend.split(":", 2)[1:]
+            held = f"out:[nil, <err {kind}: {msg}>]"
+            ok = o["events"] == prefix + [held, "out:72"]
+            want = [prefix + [held, "out:72"], "*"]
+        if not ok:
+            ck.reject(f"C07:lazy-source:{sname}:{cons.split('(')[0].split(' ')[0]}:{handler}", f"{rq['src']!r}: the source raises while it computes its second element; observed {o['events']} {o['end']}, "
+                      f"expected {want}", {"src": rq["src"], "observed": [o["events"], o["end"]], "expected": want, "quiet_run": qo["events"]})
+    ck.cov["lazy_source_programs_judged"] = lazy_judged
     reached = sum(1 for r in res.values() if r["status"] == "ok" and "out:70" in r["observed"]["ev"] and "out:71" not in r["observed"]["ev"])
     ck.cov["evaluations"] = len(fam)
     ck.cov["distinct_nontrivial"] = reached
@@ -65,7 +112,7 @@ def run():
     ck.cov["rule"] = (f"{len(evalfam.HOSTS)} host constructs (operands, elements, *spread, pair values, range bounds, positional / keyword / **arguments, keyword "
                       "defaults, receiver, callee, condition/branches, embedded-string parts, assignment, index, literal call, jump guard, nesting) x every child "
                       "position x raise kinds (Err.new, 1/0, undefined name, missing property) x nesting (top, function, method, literal call, function with "
-                      "defer) x handler (none, try, thoughtful chain); histories of 3 operations over an iterator whose recur argument raises after the yield (PanIter); non-trivial = accepted runs in which the statement was entered (marker 70) and did "
+                      "defer) x handler (none, try, thoughtful chain); histories of 3 operations over an iterator whose recur argument raises after the yield (PanIter); 3 lazy sources x 45 library consumers x 3 raise kinds x (none, try), judged against the quiet run of the same consumer; non-trivial = accepted runs in which the statement was entered (marker 70) and did "
                       "not complete (no marker 71)")
     ck.assumptions = ["list/reduce chain positions are covered by C04's chain machine", "conversion hooks (B, S, ==) are never the raise site"]
     if st["ok"] + st["mismatch"] < len(fam) * 0.9:
